@@ -22,7 +22,9 @@ use crate::scratch;
 
 /// (start, end) of every region of this process that maps `path`.
 pub fn regions_of(path: &Path) -> Vec<(usize, usize)> {
-    let text = std::fs::read_to_string("/proc/self/maps").unwrap_or_default();
+    // Lossy on both sides: a mapped file may have a name that is not UTF-8.
+    let raw = std::fs::read("/proc/self/maps").unwrap_or_default();
+    let text = String::from_utf8_lossy(&raw);
     let want = path.to_string_lossy();
     let mut out = Vec::new();
     for line in text.lines() {
@@ -94,6 +96,16 @@ impl MapViews {
         MapViews { payloads, mutable, trunc: Trunc::All, bad_offsets: !trunc_only, via_symlink: rng.chance(1, 5), rewrite: mutable && rng.chance(2, 3) }
     }
 
+    /// One dense raw vector with more than 2^32 set bits (a body above 512 MiB): counters and offsets that were
+    /// given 32 bits somewhere show only here. No truncation sweep; the views of the complete file only.
+    pub fn generate_giant(rng: &mut Rng) -> MapViews {
+        let len = (1usize << 32) + *rng.pick(&[64usize, 1, 4096 + 13]);
+        let c = crate::content::Content { len, pat: *rng.pick(&[crate::content::Pat::Ones, crate::content::Pat::Ones, crate::content::Pat::AllButOne]), salt: 0 };
+        let mut payloads = vec![Payload::plain(Leaf::Raw { c, route: 0 })];
+        if rng.bool() { payloads.insert(0, Payload::plain(Leaf::VecU64(crate::content::Content { len: 3, pat: crate::content::Pat::Counter, salt: 1 }))); }
+        MapViews { payloads, mutable: false, trunc: Trunc::None, bad_offsets: true, via_symlink: false, rewrite: false }
+    }
+
     pub fn run(&self, prop: &str) -> Outcome {
         let mut out = Outcome::default();
         let v = |clause: &str, site: &str, msg: String| Violation::new(prop, clause, site, msg);
@@ -117,6 +129,7 @@ impl MapViews {
             if std::os::unix::fs::symlink(&data_path, &link).is_err() { data_path.clone() } else { out.stats.probe("file mapped through a symbolic link"); link }
         } else { data_path.clone() };
         let mode = if self.mutable { MappingMode::Mutable } else { MappingMode::ReadOnly };
+        out.stats.probe_if(self.payloads.iter().any(|p| matches!(&p.leaf, Leaf::Raw { c, .. } if c.len > 1 << 32)), "raw vector of more than 2^32 bits mapped");
         let result = self.run_inner(prop, &vals, &bytes, &ledger, total, &data_path, &path, mode, &mut out.stats);
         let _ = std::fs::remove_file(&data_path);
         if path != data_path { let _ = std::fs::remove_file(&path); }
@@ -331,6 +344,9 @@ pub enum FileSpec {
     /// A copy of an executable, padded to a multiple of 8 bytes, that is running as a child process: nobody,
     /// not even root, can open it for writing (ETXTBSY), but it can be mapped read-only.
     BusyExe,
+    /// A file of this many bytes with mode 0444. A privileged process can still open it for writing; whoever
+    /// returns a mutable map of it owes the file the changes, and refusing the mutable map is a loud answer.
+    ReadOnly(u64),
 }
 
 #[derive(Clone, Debug, Serialize, Deserialize, PartialEq, Eq)]
@@ -361,6 +377,10 @@ pub struct MapLife {
     /// Maps are dropped because a panic unwinds through the scope that owns them.
     #[serde(default)]
     pub unwind_drops: bool,
+    /// The file names contain bytes that are not UTF-8 (legal on Linux); in every second file's directory a
+    /// decoy with the lossy spelling of the name and other content exists as well.
+    #[serde(default)]
+    pub odd_names: bool,
 }
 
 /// Drops a live map, either normally or by letting an unrelated panic unwind through the scope that owns it.
@@ -402,7 +422,7 @@ impl MapLife {
             files.push(match rng.below(22) {
                 0 => FileSpec::Missing,
                 20 => FileSpec::Dir,
-                21 => if rng.bool() { FileSpec::Unlinked(*rng.pick(&[8u64, 4096, 4104, 32776])) } else { FileSpec::BusyExe },
+                21 => match rng.below(3) { 0 => FileSpec::Unlinked(*rng.pick(&[8u64, 4096, 4104, 32776])), 1 => FileSpec::BusyExe, _ => FileSpec::ReadOnly(*rng.pick(&[8u64, 4096, 4104, 32776])) },
                 1 | 4 if big => FileSpec::Sparse(*rng.pick(&[64u64 << 20, (64 << 20) + 4104, 1 << 30, 1 << 30, (5u64 << 30) + 4104])),
                 // Tens of megabytes (where huge-page or chunked mapping strategies start), cheap because sparse.
                 1 => FileSpec::Sparse(*rng.pick(&[(16u64 << 20) + 3 * 4096 + 40, 16 << 20, (32 << 20) + 8, (64 << 20) + 4104])),
@@ -425,7 +445,7 @@ impl MapLife {
             };
             ops.push(op);
         }
-        MapLife { files, ops, cwd_removed: rng.chance(1, 10), cwd_absolute: rng.bool(), unwind_drops: rng.chance(1, 5) }
+        MapLife { files, ops, cwd_removed: rng.chance(1, 10), cwd_absolute: rng.bool(), unwind_drops: rng.chance(1, 5), odd_names: rng.chance(1, 12) }
     }
 
     pub fn run(&self, prop: &str) -> Outcome {
@@ -440,16 +460,31 @@ impl MapLife {
                 ((0..self.files.len()).map(|i| base.join(format!("life-{}", i))).collect(), Some(base))
             } else { let _ = std::env::set_current_dir(scratch::dir()); (self.files.iter().map(|_| scratch::file("life")).collect(), None) }
         } else { (self.files.iter().map(|_| scratch::file("life")).collect(), None) };
+        let mut decoys: Vec<PathBuf> = Vec::new();
+        let paths: Vec<PathBuf> = if self.odd_names {
+            use std::os::unix::ffi::{OsStrExt, OsStringExt};
+            out.stats.probe("file names that are not UTF-8");
+            paths.iter().enumerate().map(|(i, p)| {
+                let mut name = p.file_name().unwrap().as_bytes().to_vec();
+                name.extend_from_slice(b"-\xff\xfe");
+                let odd = p.with_file_name(std::ffi::OsString::from_vec(name));
+                if i % 2 == 0 {
+                    let decoy = p.with_file_name(odd.file_name().unwrap().to_string_lossy().into_owned());
+                    if std::fs::write(&decoy, vec![0x5Au8; 24]).is_ok() { decoys.push(decoy); }
+                }
+                odd
+            }).collect()
+        } else { paths };
         let r = self.run_inner(prop, &paths, base.is_some() && !self.cwd_absolute, &mut out.stats);
         if let Some(b) = base { let _ = std::env::set_current_dir(scratch::dir()); for p in paths.iter() { let _ = std::fs::remove_file(p); let _ = std::fs::remove_dir(p); } let _ = std::fs::remove_dir_all(&b); }
-        for p in paths.iter() { let _ = std::fs::remove_file(p); let _ = std::fs::remove_dir(p); }
+        for p in paths.iter().chain(decoys.iter()) { let _ = std::fs::remove_file(p); let _ = std::fs::remove_dir(p); }
         match r { Ok(()) => out, Err(viol) => out.fail(viol) }
     }
 
     fn run_inner(&self, prop: &str, paths: &[PathBuf], relative: bool, stats: &mut Stats) -> Result<(), Violation> {
         let v = |clause: &str, site: &str, msg: String| Violation::new(prop, clause, site, msg);
         // The address-space oracle needs /proc/self/maps; without it nothing can be judged.
-        if !std::fs::read_to_string("/proc/self/maps").map(|t| t.lines().count() > 3).unwrap_or(false) {
+        if !std::fs::read("/proc/self/maps").map(|t| t.iter().filter(|b| **b == b'\n').count() > 3).unwrap_or(false) {
             return Err(v("harness", "/proc/self/maps", "cannot read /proc/self/maps: the address space cannot be observed here".into()));
         }
         // Create the files and the model of their content.
@@ -492,6 +527,14 @@ impl MapLife {
                     std::fs::write(&paths[i], &c).map_err(|e| v("harness", "write", e.to_string()))?;
                     model.push(Some(c)); sparse_len.push(None);
                 },
+                FileSpec::ReadOnly(n) => {
+                    use std::os::unix::fs::PermissionsExt;
+                    let c = crate::content::Content::new(*n as usize, crate::content::Pat::Random, 29 + i as u64).bytes();
+                    std::fs::write(&paths[i], &c).map_err(|e| v("harness", "write", e.to_string()))?;
+                    std::fs::set_permissions(&paths[i], std::fs::Permissions::from_mode(0o444)).map_err(|e| v("harness", "chmod", e.to_string()))?;
+                    stats.probe("write-protected file (mode 0444)");
+                    model.push(Some(c)); sparse_len.push(None);
+                },
                 FileSpec::Sparse(n) => {
                     let f = std::fs::File::create(&paths[i]).map_err(|e| v("harness", "create", e.to_string()))?;
                     f.set_len(*n).map_err(|e| v("harness", "set_len", e.to_string()))?;
@@ -499,7 +542,7 @@ impl MapLife {
                 },
             }
         }
-        let mut cur_size: Vec<Option<u64>> = self.files.iter().enumerate().map(|(i, f)| match f { FileSpec::Missing | FileSpec::Dir => None, FileSpec::BusyExe => model[i].as_ref().map(|m| m.len() as u64), FileSpec::Size(n) | FileSpec::Sparse(n) | FileSpec::Unlinked(n) => Some(*n) }).collect();
+        let mut cur_size: Vec<Option<u64>> = self.files.iter().enumerate().map(|(i, f)| match f { FileSpec::Missing | FileSpec::Dir => None, FileSpec::BusyExe => model[i].as_ref().map(|m| m.len() as u64), FileSpec::Size(n) | FileSpec::Sparse(n) | FileSpec::Unlinked(n) | FileSpec::ReadOnly(n) => Some(*n) }).collect();
         let mut slots: Vec<Option<Live>> = Vec::new();
         let mut sig: u64 = 0;
 
@@ -610,6 +653,7 @@ impl MapLife {
                         (Err(_), Some(_)) => { slots.push(None); stats.probe("map creation failed loudly"); },
                         // A running program's file cannot be opened for writing: refusing the mutable map is the loud answer.
                         (Err(_), None) if busy_text && *mutable => { slots.push(None); stats.probe("mutable map of a busy executable refused"); },
+                        (Err(_), None) if matches!(self.files[*file], FileSpec::ReadOnly(_)) && *mutable => { slots.push(None); stats.probe("mutable map of a write-protected file refused"); },
                         (Err(e), None) => return Err(v("map-error", "MemoryMap::new", format!("{}: mapping a healthy file ({:?}) failed: {}", step, self.files[*file], e))),
                         (Ok(m), None) => {
                             // Accessors the statement does not mention are counted, not judged (a path may legitimately be normalised).
@@ -715,6 +759,7 @@ impl MapLife {
         let mut out = Vec::new();
         if self.cwd_removed { let mut s = self.clone(); s.cwd_removed = false; out.push(s); }
         if self.unwind_drops { let mut s = self.clone(); s.unwind_drops = false; out.push(s); }
+        if self.odd_names { let mut s = self.clone(); s.odd_names = false; out.push(s); }
         for i in 0..self.ops.len() {
             // Removing a Map op shifts slot numbers; renumber the references.
             let mut s = self.clone();
@@ -740,6 +785,7 @@ impl MapLife {
                 FileSpec::Sparse(n) => vec![FileSpec::Size(4104), FileSpec::Size((*n).min(1 << 20))],
                 FileSpec::Unlinked(n) => vec![FileSpec::Size(*n), FileSpec::Unlinked(8)],
                 FileSpec::BusyExe => vec![FileSpec::Size(4104)],
+                FileSpec::ReadOnly(n) => vec![FileSpec::Size(*n), FileSpec::ReadOnly(8)],
                 FileSpec::Size(n) if *n > 4104 => vec![FileSpec::Size(4104), FileSpec::Size(8192), FileSpec::Size(n / 2 / 8 * 8)],
                 FileSpec::Size(n) if *n > 8 => vec![FileSpec::Size(8), FileSpec::Size(n / 2 / 8 * 8)],
                 _ => vec![],
@@ -789,6 +835,7 @@ fn file_class(f: &FileSpec) -> u64 {
         FileSpec::Missing => 0,
         FileSpec::Dir => 7,
         FileSpec::BusyExe => 9,
+        FileSpec::ReadOnly(_) => 10,
         FileSpec::Unlinked(_) => 8,
         FileSpec::Sparse(_) => 1,
         FileSpec::Size(0) => 2,
